@@ -26,6 +26,9 @@ type script struct {
 	batches  []batchSpec
 	failFrom int
 	hold     map[int]time.Duration
+	// stopEarly: the stream ends (the receiver loop leaves and stops the Responder) right after the
+	// last batch, while the Responder may still hold queued reports: only safety is judged
+	stopEarly bool
 }
 
 func (s *script) String() string {
@@ -41,6 +44,9 @@ func (s *script) String() string {
 		if b.waitBlocked >= 0 {
 			r += fmt.Sprintf("@%d", b.waitBlocked)
 		}
+	}
+	if s.stopEarly {
+		r += " stop-early"
 	}
 	return fmt.Sprintf("batches=[%s] failFrom=%d hold=%v", r, s.failFrom, s.hold)
 }
@@ -110,7 +116,11 @@ func runResponderCase(name string, sc *script) *caseOut {
 	}
 	broken := sc.failFrom >= 0
 	quiescent := false
-	if !blockedInSched {
+	if !blockedInSched && sc.stopEarly {
+		if exit == "" {
+			exit = "readfail"
+		}
+	} else if !blockedInSched {
 		// bounded wait for the responder to report everything it was given
 		quiescent = tr.waitFor(3*time.Second, func(es []logEntry) bool {
 			o := observe(es)
@@ -132,7 +142,7 @@ func runResponderCase(name string, sc *script) *caseOut {
 		c.fail("responder-hang", "Responder.Run did not return within 3 s after Stop (script %s)", sc)
 	}
 	tr.add(logEntry{kind: "exit", out: exit})
-	if !quiescent && !broken && !blockedInSched {
+	if !quiescent && !broken && !blockedInSched && !sc.stopEarly {
 		c.note("note case %s: responder did not settle within 3 s", name)
 		c.stat("settle-timeout", 1)
 	}
@@ -254,6 +264,23 @@ func responderJobs(want func(string) bool) []func() *caseOut {
 			sc.batches = append(sc.batches, batchSpec{n: 1 + r.Intn(4), out: randomOutcome(r, false), pre: aroundTick(r), waitBlocked: -1})
 		}
 		add(fmt.Sprintf("resp-heldbad-%d", k), sc)
+	}
+	// (e) the stream ends while the Responder is busy: while a response is held by the stream a batch
+	// is rejected permanently and a later one accepted, then the loop leaves at once (read failure)
+	// and stops the Responder. When the held send returns, the stop signal, the bad-data channel and
+	// the ticker are all ready: whatever the Responder still sends on its way out must not
+	// acknowledge past the rejected batch that it has not reported.
+	for k := 0; k < 32*mult; k++ {
+		sc := &script{failFrom: -1, stopEarly: true, hold: map[int]time.Duration{0: time.Duration(11+r.Intn(8)) * time.Millisecond}}
+		sc.batches = []batchSpec{
+			{n: 1 + r.Intn(4), out: "accept", waitBlocked: -1},
+			{n: 1 + r.Intn(4), out: "perm", waitBlocked: 0},
+			{n: 1 + r.Intn(4), out: "accept", waitBlocked: -1},
+		}
+		if r.Bool() {
+			sc.batches = append(sc.batches, batchSpec{n: 1 + r.Intn(3), out: randomOutcome(r, false), waitBlocked: -1})
+		}
+		add(fmt.Sprintf("resp-stopbusy-%d", k), sc)
 	}
 	// (b) bursts of permanent errors while a response is held: the channel (capacity 10) fills,
 	// ScheduleBadDataResponse blocks, composeBadDataResponse drains several ranges at once.
